@@ -70,7 +70,17 @@ AllDeviations == {"NoLenUntilClose", "ClPlus", "TeLenient", "LenientName",
                   \* ReuseBackUnwritten: mux/h1.rs put an HTTP/1.1 backend connection back into the keep-alive pool although
                   \*   the request on it was not written completely (the HTTP/2 client abandoned the stream after the early
                   \*   answer): the backend read the next request written there as the missing body - before fix: commit f073bfa
-                  "ReuseFrontUnread", "ReuseBackUnwritten"}
+                  "ReuseFrontUnread", "ReuseBackUnwritten",
+                  \* An INTERIM response (100 Continue / 103 Early Hints) may be relayed before the request body arrives:
+                  \* InterimStatusExempt: h2.rs content_length_exempt looked at HttpContext::status - shared by both sides of the
+                  \*   stream - without asking which connection it was reading: once the backend had sent an interim response
+                  \*   (status 1xx) the DATA of the REQUEST, read on the frontend connection, was no longer reconciled with its
+                  \*   content-length: N declared, M # N bytes forwarded behind "Content-Length: N" - before fix: see known_findings
+                  \*   c03-interim-status-exempts-request
+                  \* TrailerAfterClLate: mux/h1.rs drop_unframed_trailers told a trailer field from a head field by "the head's
+                  \*   closing Flags precede it" only: trailers that arrive when the head has already LEFT the queue (the environment
+                  \*   choice `late`) were written behind the Content-Length body (a defect class, never the code's behaviour)
+                  "InterimStatusExempt", "TrailerAfterClLate"}
 ASSUME Deviations \subseteq AllDeviations
 Dev(d) == d \in Deviations
 
@@ -179,6 +189,17 @@ StrictRead(w) == SR(w, 1, <<>>)
 \* early: an environment choice carried by a few H1 cases - the backend answers the request from its head (the recording
 \* backend does so for HEAD) BEFORE the body the head announces has reached sozu (the client sends it after the answer).
 Early(c) == "early" \in DOMAIN c /\ c.early
+
+\* interim: an environment choice carried by a slice of the cases - the backend sends an INTERIM response as soon as it holds
+\* the request head, the client sends the body (H1) / the DATA and trailer frames (H2) only once that interim response was
+\* relayed to it: sozu reads the rest of the request AFTER it relayed a response head on the same stream.
+\*   "expect": the request carries `Expect: 100-continue`, which the backend answers with `100 Continue` (RFC 9110 10.1.1)
+\*   "always": the backend sends an interim response (103 Early Hints or 100) of its own accord
+Interim(c) == "interim" \in DOMAIN c
+\* late: an environment choice carried by a slice of the H2 cases with trailers - the trailer HEADERS frame is held back until
+\* the backend has RECEIVED the head and the DATA (so sozu's queue towards the backend is empty when the trailers are handled),
+\* and the backend holds its answer back until the trailers were sent (so the exchange is still open on both sides).
+Late(c) == "late" \in DOMAIN c /\ c.late
 
 \* cls: "fwd" | "r400" | "r404" | "rst" | "goaway" | "close"
 \*      | "early"  (H1) the client holds the backend's answer, given from the request head; sozu did not wait for the rest
@@ -393,7 +414,10 @@ H2Run(c) ==
       \* h2.rs content_length_exempt: HEAD counts only where a RESPONSE is read (position.is_client(), a backend connection);
       \* on the frontend the three content-length vs DATA tests apply to a HEAD request as to any other. The deviation
       \* drops that conjunct (HttpContext::method is already HEAD when the request's DATA arrives).
-      exempt   == Dev("HeadRequestExempt") /\ st.method = "HEAD"
+      \* ... and the 1xx / 204 / 304 arm of the same function looks at HttpContext::status, which an interim response of the
+      \* backend sets while the request is still being read: it counts on a backend connection only. The deviation
+      \* InterimStatusExempt is the code before that guard.
+      exempt   == (Dev("HeadRequestExempt") /\ st.method = "HEAD") \/ (Dev("InterimStatusExempt") /\ Interim(c))
       esOnHeaders == c.data = "es" /\ c.tr = "none"
       declared == st.bs = "len"
       mismatch == declared /\ total # st.len /\ ~exempt       \* END_STREAM (on DATA or on trailers): total must equal the declaration
@@ -434,7 +458,8 @@ H2Run(c) ==
                IF mismatch THEN rst(TRUE, FALSE)
                ELSE \* H1 cannot carry trailers after a Content-Length body: they are dropped
                     Result("fwd", <<R("cl", total), SentinelH2>>,
-                           headCl \o body \o (IF Dev("TrailerAfterCl") THEN <<<<"junk">>>> ELSE <<>>) \o WireSentinelH2, FALSE, FALSE)
+                           headCl \o body \o (IF Dev("TrailerAfterCl") \/ (Dev("TrailerAfterClLate") /\ Late(c)) THEN <<<<"junk">>>> ELSE <<>>)
+                                  \o WireSentinelH2, FALSE, FALSE)
           ELSE Result("fwd", <<R("chunked", total), SentinelH2>>,
                       headTe \o chunks \o (IF Dev("TrailerNoLastChunk") THEN <<>> ELSE <<<<"last">>>>)
                              \o <<<<"trailer", "x-t">>, <<"eot">>>> \o WireSentinelH2, FALSE, FALSE)   \* identity fields elided
@@ -589,7 +614,24 @@ H2MethodCases ==
   \* the client abandons the stream after HEADERS without END_STREAM
   \cup {H2Case(p, m, s, "rst", "none") : p \in {"ok", "auth:b", "nopath"}, m \in Methods, s \in {<<>>, <<"cl:5">>, <<"cl:3">>}}
 
+\* INTERIM slices (every tier): the request's body / DATA / trailers are read by sozu after it relayed an interim response
+\* of the backend: every DATA shape (=, <, >, exact-then-excess against the declaration) x content-length lists x trailers
+InterimKinds == {"expect", "always"}
+H2InterimCases ==
+  {x \in {H2Case("ok", m, s, d, t) @@ [interim |-> i] : m \in {"POST", "GET", "PURGE"}, i \in InterimKinds,
+                                         s \in {<<>>, <<"cl:5">>, <<"cl:3">>, <<"cl:5", "cl:5">>},
+                                         d \in DataShapes, t \in {"none", "plain"}} : x.data # "es" \/ (x.tr = "none" /\ x.interim = "always")}
+H1InterimCases ==
+  {H1Case("ok", m, "a", s, "valid") @@ [interim |-> i] : m \in {"POST", "GET"}, i \in InterimKinds,
+        s \in {<<"cl:5">>, <<"cl:3">>, <<"te:chunked">>, <<"cl:5", "conn:close">>, <<"cl:5", "cl:3">>, <<"cl:plus">>, <<"cl:5", "te:chunked">>}}
+\* LATE trailers (every tier): trailer shapes x DATA shapes x content-length lists, the trailer frame held back until the
+\* backend has received head and DATA
+H2LateCases ==
+  {H2Case("ok", m, s, d, t) @@ [late |-> TRUE] : m \in {"POST", "GET"}, s \in {<<>>, <<"cl:5">>, <<"cl:3">>, <<"cl:5", "cl:5">>},
+                                                d \in DataShapes \ {"es"}, t \in TrShapes \ {"none"}}
+
 Cases == H1Cases \cup H2Cases \cup H1Triples \cup H2Triples \cup H1MethodCases \cup H2MethodCases
+         \cup H2InterimCases \cup H1InterimCases \cup H2LateCases
 
 Init == case \in Cases
 Next == UNCHANGED case
